@@ -4,6 +4,7 @@ import TlsModel.Crypto.Modes
 import TlsModel.Crypto.Kdf
 import TlsModel.Crypto.Gcm
 import TlsModel.Crypto.Ccm
+import TlsModel.Crypto.Aes
 /-
   Driver for C09 (one request per line, bytes in hex, `-` = empty; replies: hex | none | raise:<Exc>).
 
@@ -41,6 +42,7 @@ import TlsModel.Crypto.Ccm
     digestssl t5 t1 buffer ms label               Model: HandshakeHashes.digestSSL
     macssl bs ds tab isMd5 key msg                Model: MAC_SSL
     calckey 4h vmaj vmin secret sha384 label hh cr sr len        Model: calc_key
+    exporter 4h vmaj vmin sha384 ms cr sr ems label len          Model: TLSConnection.keyingMaterialExporter
     hkdf bs ds tab prk info L                     Model: HKDF_expand (HMAC over the table hash)
     hkdf_label label ctx length                   Model: the HkdfLabel bytes
     hkdf_expand_label bs ds tab secret label ctx length | derive_secret bs ds tab secret label hh
@@ -56,6 +58,10 @@ import TlsModel.Crypto.Ccm
     gcm_gfmul x y | gcm_seal_spec ... | gcm_open_spec ...            Spec : SP 800-38D
     ccm_seal tabE taglen nonce pt aad | ccm_open tabE taglen nonce ct aad     Model: AESCCM.seal / open
     ccm_seal_spec ... | ccm_open_spec ...                            Spec : RFC 3610
+
+  AES core (reference, validated by correspondence, model = spec not proved):
+    aes_model key enc|dec block       Model: Rijndael(key, 16).encrypt / decrypt (generated tables)
+    aes_spec  key enc|dec block       Spec : FIPS-197 Cipher / InvCipher
 -/
 open Tls Tls.Crypto
 
@@ -236,6 +242,10 @@ def handleKdf : List String → Option String
     let hs ← mkHashes t5 t1 t256 t384
     some (outB (Model.calcKey hs (← vmaj.toNat?, ← vmin.toNat?) (← ofHex secret) (sha384 == "1") (← ofHex label)
       (← optHex hh) (← optHex cr) (← optHex sr) (← optNat len)))
+  | ["exporter", t5, t1, t256, t384, vmaj, vmin, sha384, ms, cr, sr, ems, label, len] => do
+    let hs ← mkHashes t5 t1 t256 t384
+    some (outB (Model.keyingMaterialExporter hs (Spec.hmac hs.sha256) (Spec.hmac hs.sha384) (← vmaj.toNat?, ← vmin.toNat?)
+      (sha384 == "1") (← ofHex ms) (← ofHex cr) (← ofHex sr) (← ofHex ems) (← ofHex label) (← len.toNat?)))
   | ["hkdf", bs, ds, tab, prk, info, l] => do
     let h ← mkHash bs ds tab
     some (outB (Model.hkdfExpand (Spec.hmac h) h.digestSize (← ofHex prk) (← ofHex info) (← l.toNat?)))
@@ -293,6 +303,12 @@ def handleAead : List String → Option String
   | ["gcm_table", h] => do
     some (errOut (fun (t : List Nat) => " ".intercalate (t.map toString)) (Gcm.Model.productTable (← h.toNat?)))
   | ["gcm_gfmul", x, y] => do some (toString (Gcm.Spec.gfmul (← x.toNat?) (← y.toNat?)))
+  | ["aes_model", key, dir, blk] => do
+    let key ← ofHex key; let blk ← ofHex blk
+    some (outB (Aes.Model.init key >>= fun k => if dir == "enc" then Aes.Model.encrypt k blk else Aes.Model.decrypt k blk))
+  | ["aes_spec", key, dir, blk] => do
+    let key ← ofHex key; let blk ← ofHex blk
+    some (hexOut (if dir == "enc" then Aes.Spec.cipher key blk else Aes.Spec.invCipher key blk))
   | ["ccm_seal", tab, tl, nonce, pt, aad] => do
     some (outB (Ccm.Model.aseal (tabFn (← parseTab tab)) (← tl.toNat?) (← ofHex nonce) (← ofHex pt) (← ofHex aad)))
   | ["ccm_open", tab, tl, nonce, ct, aad] => do
@@ -306,7 +322,7 @@ def handleAead : List String → Option String
 
 def kdfOps : List String :=
   ["labels", "hmac", "hmac_spec", "phash", "phash_spec", "prf", "prf12", "prf12_spec", "prfssl", "digestssl", "macssl",
-   "calckey", "hkdf", "hkdf_spec", "hkdf_label", "hkdf_expand_label", "hkdf_expand_label_spec", "derive_secret",
+   "calckey", "exporter", "hkdf", "hkdf_spec", "hkdf_label", "hkdf_expand_label", "hkdf_expand_label_spec", "derive_secret",
    "slice", "pending", "tls13_pending", "tls13_update"]
 
 def handle (toks : List String) : Option String :=
@@ -314,7 +330,7 @@ def handle (toks : List String) : Option String :=
   | [] => none
   | op :: _ =>
     if kdfOps.contains op then handleKdf toks
-    else if op.startsWith "gcm" || op.startsWith "ccm" then handleAead toks
+    else if op.startsWith "gcm" || op.startsWith "ccm" || op.startsWith "aes_" then handleAead toks
     else if op.startsWith "rc4" then handleRc4 toks
     else if op.startsWith "cbc" || op.startsWith "tdes" || op.startsWith "ctr" then handleModes toks
     else handleChaCha toks
